@@ -1022,6 +1022,10 @@ Proof.
     apply IxOK_delete; [exact (IxOK_ext _ _ _ E Hx)|].
     apply mkquad_ok; [exact B2|exact (key_ok_ext _ _ _ E2 K1)|].
     destruct g as [x|], gi as [n|]; try contradiction; [eapply denotes_defined; eassumption|exact I].
+  - destruct (encode3 (dst d) s p o) as [[s1 k]|] eqn:E3; [|discriminate]. injection H as <-.
+    destruct (encode3_spec _ _ _ _ _ _ Hs E3) as (S1 & E1 & K1 & _).
+    split; [|exact E1]. split; [exact S1|]. cbn [dst dix dseeds]. split; [exact (IxOK_ext _ _ _ E1 Hx)|].
+    intros k0 p0 [Heq|Hin]; [injection Heq as <- <-; exact K1|eapply Hk'; eassumption].
 Qed.
 
 Lemma WF_new : WF db_new.
